@@ -67,7 +67,7 @@ func genSchema(t *rapid.T, allowBoolAndEnumResults bool) (string, []mdef, map[st
 		if rapid.Bool().Draw(t, "plainname") {
 			// a capital and small letters, as most types of the shipped schemas (Null, Peer, Error): the constructor "named like
 			// its type" then differs from it by the case of the first letter only
-			n = fmt.Sprintf("%s%d", []string{"Alpha", "Box", "Null", "Peer", "Error", "Ty"}[i%6], i)
+			n = fmt.Sprintf("%s%d", []string{"Alpha", "Box", "Null", "Peer", "Error", "Ty", "VectorClock", "Vectors", "Flags", "Intent", "Booleans", "True"}[rapid.IntRange(0, 11).Draw(t, "tname")], i)
 		}
 		if rapid.IntRange(0, 2).Draw(t, "ns") == 0 {
 			n = rapid.SampledFrom([]string{"ns.", "messages.", "a1."}).Draw(t, "nsname") + n
@@ -84,7 +84,7 @@ func genSchema(t *rapid.T, allowBoolAndEnumResults bool) (string, []mdef, map[st
 		return typeName("tn")
 	}
 	paramName := func(i int) string {
-		n := rapid.OneOf(rapid.Just(fmt.Sprintf("p%d_x", i)), rapid.StringMatching(`[a-z][a-z0-9]{0,5}(_[a-z0-9]{1,4}){0,2}`), rapid.SampledFrom([]string{"id", "url", "api_id", "user_id", "error", "errors", "q", "c", "type", "range", "func", "map", "reflect", "tl", "hash", "p2p_allowed", "sha256"})).Draw(t, "pname")
+		n := rapid.OneOf(rapid.Just(fmt.Sprintf("p%d_x", i)), rapid.StringMatching(`[a-z][a-z0-9]{0,5}(_[a-z0-9]{1,4}){0,2}`), rapid.SampledFrom([]string{"id", "url", "api_id", "user_id", "error", "errors", "q", "c", "type", "range", "func", "map", "reflect", "tl", "hash", "p2p_allowed", "sha256", "err", "resp", "ok", "response_data", "data", "params", "vector_of", "flags_v", "int_value", "string_value"})).Draw(t, "pname")
 		if n == "flags" {
 			n = n + "_v"
 		}
@@ -314,5 +314,11 @@ func genSchema(t *rapid.T, allowBoolAndEnumResults bool) (string, []mdef, map[st
 		}
 		fmt.Fprintf(&sb, " = %s;\n", res)
 	}
-	return sb.String(), defs, feats
+	out := sb.String()
+	if rapid.IntRange(0, 3).Draw(t, "lastline") == 0 {
+		// the file ends with a comment line, and - as editors leave it half of the time - without a final newline
+		out += "// end of schema"
+		feats["last-line-is-a-comment-without-newline"] = true
+	}
+	return out, defs, feats
 }
